@@ -2585,3 +2585,29 @@ CASES += [
                     new_coeffs[i + j] + (self.coefficients[i] * rhs.coefficients[j]);
             }"""),
 ]
+
+CASES += [
+    # ------------------------------------------------------------------ FS empty-list (round 10: C01-r10m2)
+    dict(name="fs-or-lst-balanced-empty-is-true", file=BB, rule="FS", props=["C01", "C05"], expect="or_lst:empty-list",
+         old="""        let mut cur_bdd = BddPtr::false_ptr();
+        for &itm in f {
+            cur_bdd = self.or(cur_bdd, itm);
+        }
+        cur_bdd""",
+         new="""        let negated: Vec<BddPtr<'a>> = f.iter().map(|x| x.neg()).collect();
+        match self.collapse_clauses(&negated) {
+            None => BddPtr::true_ptr(),
+            Some(x) => x.neg(),
+        }"""),
+    dict(name="fs-or-lst-balanced-empty-is-false-ok", file=BB, rule="FS", props=["C01", "C05"], expect=None,
+         old="""        let mut cur_bdd = BddPtr::false_ptr();
+        for &itm in f {
+            cur_bdd = self.or(cur_bdd, itm);
+        }
+        cur_bdd""",
+         new="""        let negated: Vec<BddPtr<'a>> = f.iter().map(|x| x.neg()).collect();
+        match self.collapse_clauses(&negated) {
+            None => BddPtr::false_ptr(),
+            Some(x) => x.neg(),
+        }"""),
+]
